@@ -22,10 +22,14 @@ FUNCTIONS = [
     "autoarray.mask.derive.grid_2d.DeriveGrid2D.border",
     "autoarray.structures.grids.uniform_2d.Grid2D.blurring_grid_from",
 ]
+BOUNDS_NOTE = "see key 'merged' for the all-masks-in-one-query cases"
 BOUNDS = {
     "quick": "all masks (>=1 unmasked pixel) of every shape with H*W <= 9 plus 3x4, 4x3, 2x5, 5x2 (masks touching the array boundary, holes, "
              "several components included); kernel shapes (1,1),(1,3),(3,1),(3,3),(3,5),(5,3); origin and pixel scales of the grid views symbolic reals",
     "thorough": "all masks of every shape with H*W <= 16; same kernels plus (5,5)",
+    "merged": "additionally, with the mask bits left symbolic (merge interpreter over the kernels' source, ONE path = all 2^(H*W) masks): blurring "
+              "mask incl. exception condition for shapes up to 5x5 (quick) / 6x6 (thorough), kernels (3,3),(1,3),(3,5); edge predicate + edge index "
+              "list for 3x4 (quick) / up to 4x4, 3x5, 5x4 (thorough); border index list for 2x4 (quick) / 3x3, 3x4 (thorough)",
 }
 OUTSIDE = ["shapes with more than 16 pixels", "kernel axes longer than 5"]
 STUBS = []
@@ -177,6 +181,13 @@ def cases(tier):
                 n = H * W
                 out.append(("case_sets", {"H": H, "W": W, "kernels": ks}, {"split": 0 if n < 10 else (3 if n <= 12 else 6)}))
     out.sort(key=lambda c: -(c[1]["H"] * c[1]["W"]))
+    mk = [(3, 3), (1, 3), (3, 5)]
+    for (H, W) in ([(4, 4), (3, 5), (5, 5)] if tier == "quick" else [(4, 4), (3, 5), (5, 5), (6, 5), (6, 6), (4, 7)]):
+        out.append(("case_merged", {"H": H, "W": W, "kernels": mk, "parts": ["blurring"]}, {"timeout_ms": 60000}))
+    for (H, W) in ([(3, 4)] if tier == "quick" else [(3, 4), (4, 4), (3, 5), (5, 4)]):
+        out.append(("case_merged", {"H": H, "W": W, "kernels": mk, "parts": ["edge"]}, {"timeout_ms": 60000 if tier == "quick" else 300000}))
+    for (H, W) in ([(2, 4)] if tier == "quick" else [(3, 3), (2, 4), (3, 4)]):
+        out.append(("case_merged", {"H": H, "W": W, "kernels": mk, "parts": ["border"]}, {"timeout_ms": 60000 if tier == "quick" else 300000}))
     return out
 
 
@@ -184,4 +195,175 @@ def replay(cand):
     cand = dict(cand)
     cand["case_kwargs"] = dict(cand["case_kwargs"])
     cand["case_kwargs"]["kernels"] = [tuple(k) for k in cand["case_kwargs"]["kernels"]]
-    return hx.replay_body(body_sets, cand)
+    return hx.replay_body(BODIES[cand["case_fn"]], cand)
+
+
+# ---------------------------------------------------------------------------- merged kernels: all masks of a shape in one path
+# (mask bits stay symbolic; the kernels' source is executed by the if-converting interpreter symx.merge)
+
+def POST_INSTALL():
+    from symx import merge
+    merge.install_dispatchers()
+
+
+def _b2i(b):
+    return b._as_int() if isinstance(b, V.SymBool) else int(bool(b))
+
+
+def _ite(c, a, b):
+    from symx import shim
+    if isinstance(c, V.SymBool):
+        return shim._ite(c, a, b)
+    return a if c else b
+
+
+def _and(*bs):
+    r = True
+    for b in bs:
+        if isinstance(b, V.SymBool) or isinstance(r, V.SymBool):
+            r = (r & b) if not isinstance(r, bool) else (b if r else False)
+        else:
+            r = bool(r) and bool(b)
+    return r
+
+
+def _or(*bs):
+    r = False
+    for b in bs:
+        if isinstance(b, V.SymBool) or isinstance(r, V.SymBool):
+            r = (r | b) if not isinstance(r, bool) else (True if r else b)
+        else:
+            r = bool(r) or bool(b)
+    return r
+
+
+def _neg(b):
+    return ~b if isinstance(b, V.SymBool) else (not bool(b))
+
+
+def _sel(arr, idx, n_valid):
+    """arr[idx] for a possibly symbolic idx (ite chain over the capacity); -2 when idx is outside the logical length"""
+    arr = np.asarray(hx.unwrap(arr), dtype=object).reshape(-1)
+    if not isinstance(idx, V.SymInt):
+        i = int(idx)
+        return arr[i] if 0 <= i < arr.shape[0] else -2
+    res = -2
+    for c in range(arr.shape[0] - 1, -1, -1):
+        res = _ite(idx == c, arr[c], res)
+    return res
+
+
+def _length(a):
+    from symx import merge
+    s = merge.sym_shape(a)[0] if isinstance(a, merge.CapArray) else np.asarray(hx.unwrap(a)).shape[0]
+    return s
+
+
+def body_merged(inp, H, W, kernels, parts=("blurring", "edge", "border")):
+    from autoarray.mask import mask_2d_util as mu
+    from symx import merge
+    raw = np.asarray(inp["mask"], dtype=object).reshape(H, W)
+    symbolic = any(isinstance(b, V.SymBool) for b in raw.reshape(-1))
+    mask = raw if symbolic else np.array(raw, dtype=bool)
+    m = [[mask[y, x] if symbolic else bool(mask[y, x]) for x in range(W)] for y in range(H)]
+    A, E = {}, {}
+    inside = lambda a, b: 0 <= a < H and 0 <= b < W
+    # ---- blurring mask, per pixel, and the exception condition
+    for (ky, kx) in (kernels if "blurring" in parts else []):
+        hy, hx_ = ky // 2, kx // 2
+        del merge.LAST_EVENTS[:]
+        r = hx.attempt(mu.blurring_mask_2d_from, mask_2d=mask, kernel_shape_native=(ky, kx))
+        leaves = _or(*[_neg(m[y][x]) for y in range(H) for x in range(W)
+                       if not (inside(y - hy, x - hx_) and inside(y + hy, x + hx_))]) if H * W else False
+        if symbolic:
+            raised = V.SymBool(z3.simplify(z3.Or(*[g for (g, n, _) in merge.LAST_EVENTS if n == "MaskException"]))) \
+                if any(n == "MaskException" for (_, n, _) in merge.LAST_EVENTS) else False
+            other = [g for (g, n, _) in merge.LAST_EVENTS if n != "MaskException"]
+            A["blurring_%d_%d_no_other_exception" % (ky, kx)] = V.SymBool(z3.Not(z3.Or(*other))) if other else True
+            E["blurring_%d_%d_no_other_exception" % (ky, kx)] = True
+        else:
+            raised = isinstance(r, hx.Raised) and r.name == "MaskException"
+            A["blurring_%d_%d_no_other_exception" % (ky, kx)] = not (isinstance(r, hx.Raised) and r.name != "MaskException")
+            E["blurring_%d_%d_no_other_exception" % (ky, kx)] = True
+        A["blurring_%d_%d_raises_iff_footprint_leaves_array" % (ky, kx)] = raised
+        E["blurring_%d_%d_raises_iff_footprint_leaves_array" % (ky, kx)] = leaves
+        if isinstance(r, hx.Raised):
+            for y in range(H):
+                for x in range(W):
+                    A["blurring_%d_%d_pixel_%d_%d" % (ky, kx, y, x)] = True      # vacuous: the call raised
+                    E["blurring_%d_%d_pixel_%d_%d" % (ky, kx, y, x)] = True
+            continue
+        rb = np.asarray(r, dtype=object)
+        for y in range(H):
+            for x in range(W):
+                near = _or(*[_neg(m[y + dy][x + dx]) for dy in range(-hy, hy + 1) for dx in range(-hx_, hx_ + 1) if inside(y + dy, x + dx)])
+                spec_unmasked = _and(m[y][x], near)
+                key = "blurring_%d_%d_pixel_%d_%d" % (ky, kx, y, x)
+                # only meaningful when no exception is raised
+                A[key] = _or(leaves, _neg(rb[y, x]) if symbolic or True else None)
+                E[key] = _or(leaves, spec_unmasked)
+    if "edge" not in parts and "border" not in parts:
+        return A, E
+    # ---- edge predicate of the kernel vs the definition
+    e = [[None] * W for _ in range(H)]
+    for y in range(H):
+        for x in range(W):
+            ev = hx.attempt(mu.check_if_edge_pixel, mask_2d=mask, y=y, x=x)
+            e[y][x] = ev
+            nb = [(y + dy, x + dx) for dy in (-1, 0, 1) for dx in (-1, 0, 1) if (dy, dx) != (0, 0)]
+            inarr = [(a, b) for (a, b) in nb if inside(a, b)]
+            required = _or(*[m[a][b] for (a, b) in inarr])
+            forbidden = _and(*[_neg(m[a][b]) for (a, b) in inarr]) if len(inarr) == 8 else False
+            A["edge_predicate_%d_%d" % (y, x)] = _or(m[y][x], _and(_or(_neg(required), ev), _or(_neg(ev), _neg(forbidden)))) \
+                if not isinstance(ev, hx.Raised) else ev
+            E["edge_predicate_%d_%d" % (y, x)] = True
+    if any(isinstance(e[y][x], hx.Raised) for y in range(H) for x in range(W)):
+        return A, E
+    # ---- edge / border lists: lengths and the entry of every member at its rank
+    del merge.LAST_EVENTS[:]
+    edge = hx.attempt(mu.edge_1d_indexes_from, mask_2d=mask)
+    border = hx.attempt(mu.border_slim_indexes_from, mask_2d=mask) if "border" in parts else np.zeros(0)
+    if symbolic:
+        other = [g for (g, n, _) in merge.LAST_EVENTS]
+        A["edge_border_no_exception"] = V.SymBool(z3.Not(z3.Or(*other))) if other else True
+    else:
+        A["edge_border_no_exception"] = not (isinstance(edge, hx.Raised) or isinstance(border, hx.Raised))
+    E["edge_border_no_exception"] = True
+    if isinstance(edge, hx.Raised) or isinstance(border, hx.Raised):
+        return A, E
+    slim_rank, edge_rank, border_rank = 0, 0, 0
+    for y in range(H):
+        for x in range(W):
+            un = _neg(m[y][x])
+            is_edge = _and(un, e[y][x])
+            walk = _or(_and(*[m[yy][x] for yy in range(0, y)]), _and(*[m[yy][x] for yy in range(y + 1, H)]),
+                       _and(*[m[y][xx] for xx in range(0, x)]), _and(*[m[y][xx] for xx in range(x + 1, W)]))
+            is_border = _and(is_edge, walk)
+            if "edge" in parts:
+                A["edge_entry_%d_%d" % (y, x)] = _ite(is_edge, _sel(edge, edge_rank, None), -1)
+                E["edge_entry_%d_%d" % (y, x)] = _ite(is_edge, slim_rank, -1)
+            if "border" in parts:
+                A["border_entry_%d_%d" % (y, x)] = _ite(is_border, _sel(border, border_rank, None), -1)
+                E["border_entry_%d_%d" % (y, x)] = _ite(is_border, slim_rank, -1)
+            slim_rank = slim_rank + _b2i(un)
+            edge_rank = edge_rank + _b2i(is_edge)
+            border_rank = border_rank + _b2i(is_border)
+    if "edge" in parts:
+        A["edge_length"] = _length(edge)
+        E["edge_length"] = edge_rank
+    if "border" in parts:
+        A["border_length"] = _length(border)
+        E["border_length"] = border_rank
+    return A, E
+
+
+def case_merged(ctx, H, W, kernels, parts=("blurring", "edge", "border")):
+    from symx import merge
+    m = V.bool_array("m", (H, W))
+    ctx.assume(z3.Or(*[z3.Not(b.t) for b in m.reshape(-1)]))
+    ctx.set_case(shape=[H, W], mode="merged: all masks of the shape in one path")
+    with merge.merging():
+        hx.run_body(ctx, body_merged, {"mask": m}, {"H": H, "W": W, "kernels": kernels, "parts": list(parts)}, validate_every=1)
+
+
+BODIES["case_merged"] = body_merged
